@@ -9,6 +9,26 @@ CLAIMED = {
    text="Runs the real assembler on every ISA-legal operand tuple of every supported instruction form (complete one-word space and reduced-core lds/sts in quick; additionally the complete 2^22 jmp/call and 32x2^16 lds/sts spaces in thorough) and compares the emitted bytes with an independently transcribed ISA encoder and a hand-coded decoder. Held-on-observed for the enumerated spaces; the oracle itself is cross-checked against LLVM's AVR assembler.",
    note="Trusted base: refmodel/isa.rs (manual transcription; decode∘encode self-check; llvm-mc-14 agreement except the reduced-core lds/sts form, which LLVM 14 lacks, and pc-relative fields, which LLVM leaves to fixups). Relative operands are written pc±k; label targets are C03.",
    design="§6 C01"),
+ "C03": dict(
+   technique="reference-layout monitor over enumerated displacements (runtime execution, independent decoder oracle)",
+   text="Builds programs that put each of the 18 br<cond>, brbs/brbc x 8 flags, rjmp and rcall at every displacement across and beyond both range limits (forward/backward; label, label±k, pc±k targets; random mixes of one/two-word instructions, data and .org gaps in between) and requires: build Ok iff the displacement fits, the emitted word decodes to exactly that displacement, and the whole image equals the reference layout.",
+   note="Trusted base: refmodel/isa.rs encodings of filler items and decoder. Windows: branches -80..80; rjmp/rcall around ±2048 and 0 (quick) or -2100..2100 (thorough).",
+   design="§6 C03"),
+ "C04": dict(
+   technique="reference-model monitor over bounded-exhaustive out-of-domain operand enumeration (runtime execution of build_str)",
+   text="For every instruction form one operand at a time (thorough: two) leaves its ISA domain: every register r0..r31 in every register position, every number in [lo-300, hi+300] plus ±2^k(±1) and ±i64::MAX in every numeric position, operand-kind substitutions and operand-count errors, on the default core and the reduced core. Must-reject inputs have to return Err (never Ok, never panic); every Ok image must equal the reference encoding.",
+   note="Legality from refmodel/isa.rs. 8-bit immediates written -128..-1 may be accepted as two's complement or rejected (statement silent). ld/ldd, st/std cross-spellings are not probed except X+q.",
+   design="§6 C04"),
+ "C12": dict(
+   technique="boundary-enumeration monitor against vendor part-file figures (runtime execution of build_str/build_file)",
+   text="Every device of the table and the no-device default x flash/EEPROM/RAM x usage capacity-1/capacity/capacity+1 x several fill methods must build or fail exactly at the limit and report the device's sizes and RAM usage; the same with capacities read from the #pragma AVRPART MEMORY lines of every shipped part-definition file; RAM start via data-segment labels; unknown/second .device must fail. Complete for the stated grid.",
+   note="Independent data: includes/*def.inc pragmas. For rows without a part file and the defaults only self-consistency (enforced == reported == row). 17 shipped part files do not assemble (pragma with `lpm rd,z+`); for those the figures are checked via `.device <name>`.",
+   design="§6 C12"),
+ "C13": dict(
+   technique="complete device x instruction-form enumeration monitor (runtime execution, flag→form oracle + reference encoder)",
+   text="Every device of the table x every instruction form x lowest/highest legal operands (thorough + 64 random tuples): a form forbidden by a feature flag of the device must fail; every other form must assemble to the no-device reference encoding (one-word lds/sts on reduced cores). Complete for the stated grid.",
+   note="Flag→forms map transcribed from the DisabledOptions doc comments; flags are read from the DEVICES table at run time, as the statement prescribes.",
+   design="§6 C13"),
 }
 
 PENDING_REASON = "check not built yet in this round (work in progress; design in DESIGN.md §6)"
